@@ -377,6 +377,12 @@ func C16(run *hx.Run) {
 	}
 	selects := []string{"SELECT * FROM t", "select a, b from \"t x\"", "SELECT a,* FROM [t]", "SELECT", "SELECT * FROM", "SELECT rowid, * FROM t WHERE a", "SELECT 'a' FROM t"}
 	inputs = append(inputs, selects...)
+	// minimal statements: they touch as little of the parser's state as a statement can, so whatever an earlier,
+	// richer statement (the "unrelated" ones below set every optional clause) left behind shows in their result
+	inputs = append(inputs, "CREATE TABLE p (x integer)", "CREATE TABLE p (x integer, y)", "CREATE TABLE p (a, b, c)", "CREATE TABLE q(a)", "CREATE TABLE q(a, b)",
+		"CREATE TABLE r(a PRIMARY KEY)", "CREATE TABLE r(a INTEGER PRIMARY KEY)", "CREATE TABLE r(a, b, PRIMARY KEY(a))", "CREATE TABLE u(a UNIQUE)", "CREATE TABLE d(a DEFAULT 1)",
+		"CREATE INDEX i ON t(a)", "CREATE INDEX i ON t(a, b)", "CREATE UNIQUE INDEX i ON t(a)", "CREATE TABLE c(a COLLATE nocase)", "CREATE TABLE n(a NOT NULL)", "CREATE TABLE f(a REFERENCES o)",
+		"CREATE TABLE w(a PRIMARY KEY) WITHOUT ROWID", "SELECT a FROM t")
 	for _, big := range []int{1 << 10, 1 << 14, 1 << 16} {
 		inputs = append(inputs,
 			"CREATE TABLE t("+strings.Repeat("a,", big/2)+"b)",
@@ -417,7 +423,10 @@ func C16(run *hx.Run) {
 		}
 	}
 	unrelated := []string{"CREATE TABLE zz(q INTEGER PRIMARY KEY AUTOINCREMENT, w TEXT COLLATE NOCASE UNIQUE DEFAULT 'd' REFERENCES o(i) ON DELETE CASCADE DEFERRABLE INITIALLY DEFERRED, UNIQUE(w DESC), PRIMARY KEY(q)) WITHOUT ROWID",
-		"CREATE UNIQUE INDEX zzi ON zz(w COLLATE RTRIM DESC, q) WHERE w IS NOT NULL", "SELECT * FROM zz"}
+		"CREATE UNIQUE INDEX zzi ON zz(w COLLATE RTRIM DESC, q) WHERE w IS NOT NULL", "SELECT * FROM zz",
+		// short ones: what a statement leaves behind depends on its shape, not only on its clauses
+		"CREATE TABLE kv (k text primary key, v) WITHOUT ROWID", "CREATE TABLE a1(x PRIMARY KEY DESC) WITHOUT ROWID", "CREATE TABLE au(i INTEGER PRIMARY KEY AUTOINCREMENT)",
+		"CREATE INDEX j ON t(a DESC)", "CREATE UNIQUE INDEX u ON t(a COLLATE nocase) WHERE a > 1", "CREATE TABLE d1(a DEFAULT 'x' COLLATE rtrim UNIQUE NOT NULL)"}
 	const batch = 20000
 	for start := 0; start < len(inputs); start += batch {
 		end := start + batch
@@ -438,6 +447,14 @@ func C16(run *hx.Run) {
 				b := parseOnce(s)
 				parseOnce(unrelated[len(s)%len(unrelated)])
 				c := parseOnce(s)
+				// and after two more predecessors of other shapes
+				for k := 1; k <= 2; k++ {
+					parseOnce(unrelated[(len(s)+3*k)%len(unrelated)])
+					if c2 := parseOnce(s); !sameParse(a, c2) {
+						c = c2
+						break
+					}
+				}
 				run.Eval(1)
 				run.Distinct("s:" + s)
 				if a.pm != "" {
